@@ -112,7 +112,8 @@ CLAIMED = {
     "C26": ("A5 panic inventory from SliceReader / ByteReader provided methods / primitive Deserializable impls",
             "Decides the error-not-panic clause: every panic / overflow / allocation site reachable from the primitive decoders on "
             "arbitrary bytes is proved in range, covered by a re-verified reviewed reason (check_eor guards), or reported. "
-            "The vint64 arithmetic and value equality of round trips are value-level and not decided.",
+            "Also decides the vint64 length table: usize_encoded_len depends on its argument only through leading_zeros, and its result on each of the 65 leading-zero classes (abstractly evaluated) equals the documented vint64 length; write_usize is wired to it. "
+            "The shift arithmetic and value equality of round trips are value-level and not decided.",
             "rustc MIR; reviewed reasons in wfstatic/tables/panic_sites.json", "DESIGN.md section 4, C26"),
     "C28": ("the C01.R2 sibling comparison evaluated on the default and the concurrent build's MIR",
             "Decides the partition-rule clause only: row commitments are built from per-row digests under the partition rule the "
